@@ -78,7 +78,7 @@ func funcKeys(v []data.Value) data.Value {
 		names = append(names, k)
 	}
 	sort.Strings(names)
-	var keys = make(data.List, 0, len(names))
+	var keys data.List
 	for _, k := range names {
 		keys = append(keys, data.String(k))
 	}
